@@ -586,6 +586,43 @@ def eqsys_history(g, rng, queries=()):
         cmds.append({"c": "pop", "n": 1}); cmds.append({"c": "check-sat"}); cmds += [dict(q) for q in queries]
     return cmds
 
+def tower_history(g, rng, queries=()):
+    """two towers x_i = g(x_{i-1}, x_{i-1}) over u0 and y_i = g(y_{i-1}, y_{i-1}) over u1, 30 to 60 levels high (written
+    with let, so the script is short although the terms are huge as trees), the disequality of their tops, and
+    u0 = u1 reachable only through a decision: congruence closure merges the towers level by level and the conflict
+    has a one-literal explanation that crosses every level"""
+    tb = g.tb
+    if "g" not in g.funs:
+        g._declare("g", ("U", "U"), "U")
+    a, b = g.us[0], g.us[1]
+    q = g.bools[0]
+    n = rng.randint(30, 60)
+    def tower(base, pref, body):
+        # innermost level last: build the chain of (name, value) first
+        prev, chain = base, []
+        for i in range(1, n + 1):
+            nm = "%s%d" % (pref, i)
+            chain.append((nm, tb.uf("g", [prev, prev], "U")))
+            prev = tb.var(nm, "U")
+        return prev, chain
+    xt, xc = tower(a, "tw", None)
+    yt, yc = tower(b, "tv", None)
+    body = tb.app("not", [tb.app("=", [xt, yt])])
+    for nm, val in reversed(xc + yc):
+        body = tb.let([nm], [val], body)
+    eq = tb.app("=", [a, b])
+    cmds = [{"c": "assert", "t": tb.app("or", [eq, q]), "nm": "", "inner": []}]
+    sat = rng.random() < 0.4
+    if not sat:
+        cmds.append({"c": "assert", "t": tb.app("or", [eq, tb.app("not", [q])]), "nm": "", "inner": []})
+    if rng.random() < 0.3:
+        cmds.append({"c": "push", "n": 1})
+    cmds.append({"c": "assert", "t": body, "nm": "", "inner": []})
+    cmds.append({"c": "check-sat"}); cmds += [dict(x) for x in queries]
+    if cmds[-3 - len(queries)]["c"] == "push" if len(cmds) >= 3 + len(queries) else False:
+        cmds.append({"c": "pop", "n": 1}); cmds.append({"c": "check-sat"})
+    return cmds
+
 def dlgraph_history(g, rng, queries=(), boolean=True):
     """difference-constraint graphs: several paths of different weight between the same vertices (diamonds), zero-weight
     cycles, and a negated bound whose value sits at, just below or just above the shortest path, or between the light and
